@@ -20,10 +20,44 @@ Nothing is executed and no solver is consulted: the summaries are finite objects
 many paths; bodies with loops are summarised up to their first back edge and flagged), and rules compare them with a
 finite table.
 """
-from .core import callee_of, strip_refs, const_value, _known_ctor, _project_variant
+import re
+from .core import callee_of, strip_refs, const_value, _known_ctor, _project_variant, kind_test, VALUE_ADT
 
 CMP_SWAP = {"Gt": "Lt", "Ge": "Le", "Lt": "Gt", "Le": "Ge", "Eq": "Eq", "Ne": "Ne"}
 CMP_NEG = {"Eq": "Ne", "Ne": "Eq", "Lt": "Ge", "Le": "Gt", "Gt": "Le", "Ge": "Lt"}
+
+
+SAME_VARIANT = re.compile(r"^std::(option::Option|result::Result)::<.*?>::(map|copied|cloned|as_ref|as_deref|as_mut|as_deref_mut|inspect|map_err|inspect_err)$")
+TRY = ("<std::result::Result<T, E> as std::ops::Try>::branch", "<std::option::Option<T> as std::ops::Try>::branch")
+
+
+def through_variant_preserving(pe):
+    """(inner, ren) — the Option/Result-valued expression whose variant alone decides the variant of pe, with
+    ren: variant name of pe → variant name of inner; (None, None) when pe is not such a wrapper."""
+    ren = None
+    cur = strip_refs(pe)
+    moved = False
+    for _ in range(8):
+        if not (cur[0] == "call" and cur[1] and cur[2]):
+            break
+        p = cur[1].get("path") or ""
+        if p in TRY:
+            isres = "Result" in p
+            step = {"Continue": "Ok" if isres else "Some", "Break": "Err" if isres else "None"}
+        elif SAME_VARIANT.match(p):
+            step = {"Some": "Some", "None": "None"} if "option::Option" in p else {"Ok": "Ok", "Err": "Err"}
+        elif re.match(r"^std::result::Result::<.*?>::ok$", p):
+            step = {"Some": "Ok", "None": "Err"}
+        elif re.match(r"^std::result::Result::<.*?>::err$", p):
+            step = {"Some": "Err", "None": "Ok"}
+        elif re.match(r"^std::option::Option::<.*?>::(ok_or|ok_or_else)$", p):
+            step = {"Ok": "Some", "Err": "None"}
+        else:
+            break
+        ren = step if ren is None else {o: step.get(i_, i_) for o, i_ in ren.items()}
+        cur = strip_refs(cur[2][0])
+        moved = True
+    return (cur, ren) if moved else (None, None)
 
 
 def canon(e, depth=0):
@@ -168,13 +202,29 @@ class Walker:
                 return [(other, None, None)]
             key = ("variant", canon(pe))
             self.exprs[key] = pe
-            # `x?`: the question asked of branch(x) is the question asked of x
+            # `x?`: the question asked of branch(x) is the question asked of x; likewise the variant of `x.map(f)`,
+            # `x.cloned()`, `x.ok()`, `x.ok_or(e)` … is a function of the variant of x alone
             ren = None
-            if pe[0] == "call" and pe[1] and pe[1].get("path") in ("<std::result::Result<T, E> as std::ops::Try>::branch", "<std::option::Option<T> as std::ops::Try>::branch") and pe[2]:
-                isres = "Result" in pe[1]["path"]
-                key = ("variant", canon(strip_refs(pe[2][0])))
-                self.exprs[key] = strip_refs(pe[2][0])
-                ren = {"Continue": "Ok" if isres else "Some", "Break": "Err" if isres else "None"}
+            inner, ren_ = through_variant_preserving(pe)
+            if inner is not None:
+                key = ("variant", canon(inner))
+                self.exprs[key] = inner
+                ren = ren_
+                kn2 = _known_ctor(inner)
+                if kn2 is not None:
+                    back = [o for o, i_ in ren.items() if i_ == kn2[0]]
+                    if len(back) == 1:
+                        dv = None
+                        for vv in self.f.adts.get(adt, {}).get("variants", []):
+                            if vv["name"] == back[0]:
+                                dv = str(vv["discr"])
+                        if dv is None and back[0] in ("Continue", "Break"):
+                            dv = {"Continue": "0", "Break": "1"}[back[0]]
+                        if dv is not None:
+                            for val, bb in arms:
+                                if val == dv:
+                                    return [(bb, None, None)]
+                            return [(other, None, None)]
             out = []
             listed = []
             for val, bb in arms:
@@ -196,6 +246,16 @@ class Walker:
                 out.append((other, key, ("not", frozenset(listed))))
             return out
         is_bool = t.get("dty") == "bool"
+        if is_bool and self.known and x[0] == "call":
+            # `v.is_object()` on a value whose kind is fixed: decided, as the `match` spelling of the same question is
+            kt = kind_test(x)
+            var = self.known(kt[0], VALUE_ADT) if kt else None
+            if var is not None:
+                truth = "1" if ((var == kt[1]) != neg) else "0"
+                for val, bb in arms:
+                    if val == truth:
+                        return [(bb, None, None)]
+                return [(other, None, None)]
         if is_bool:
             if x[0] == "binop" and x[1] in CMP_NEG:
                 op, a, b_ = x[1], strip_refs(x[2]), strip_refs(x[3])
